@@ -1,6 +1,6 @@
 (* C11 -- Sessions sharing one history file never lose or reorder each
    other's entries (operation granularity). Property theorems only. *)
-From RL Require Import Utf8 History HistFile HistFileProofs HistShareProofs.
+From RL Require Import Utf8 History HistFile HistFileProofs HistShareProofs HistBound.
 
 (* "the file always loads": through every interleaving of any number of
    sessions running new / load / add / save / append / set_max_len / clear
@@ -67,6 +67,23 @@ Theorem C11_nothing_pending_no_write : forall (U : UData) (f : fhist) (fs : fsys
   f_new f = 0 -> f_append U f fs tick = (f, fs, IoOk) /\ f_save f fs tick = (f, fs, IoOk).
 Proof. intros U f fs tick H. exact (conj (f_append_nothing_pending U f fs tick H) (f_save_nothing_pending f fs tick H)). Qed.
 Print Assumptions C11_nothing_pending_no_write.
+
+(* THE SIZE-LIMIT CLAUSE ("when modification times of successive writes are distinguishable the file never exceeds the size
+   limit"). A session remembers the file's modification time and how many entries it knows to be in it. If that record is right
+   whenever the file still carries the remembered time -- what distinguishable modification times guarantee, every write by
+   anybody changing the time -- then ONE append, down whichever of its four paths, leaves a file of at most max_len entries *)
+Theorem C11_append_keeps_the_limit :
+  forall (U : UData) (f : fhist) (fs : fsys) (tick : bool) f' fs' r (es : list str),
+  f_append U f fs tick = (f', fs', r) ->
+  fs_content fs = Some (save_bytes es) ->
+  Forall (fun e => valid_str e = true) es ->
+  length es <= h_max (f_mem f) ->
+  length (f_entries f) <= h_max (f_mem f) ->
+  f_new f <= hlen (f_mem f) ->
+  (forall pm psize, f_pinfo f = Some (pm, psize) -> pm = fs_mtime fs -> psize = length es) ->
+  exists es', fs_content fs' = Some (save_bytes es') /\ length es' <= h_max (f_mem f).
+Proof. exact append_keeps_bound. Qed.
+Print Assumptions C11_append_keeps_the_limit.
 
 (* non-vacuity: two sessions on an existing file; B's append goes down the
    merge path after A's append, and both sessions' lines are in the file *)
